@@ -210,6 +210,33 @@ def run(p, led, tier):
                 led.fail("C10-R4", key, where(filt, filt.node), "a replay refusal is not appended to the audit trail")
             else:
                 led.ok("C10-R4", key, where(filt, filt.node), "replay refusals append their record")
+    # signatures are distinct when their texts are distinct — letter case included (`\\d` and `\\D` are different regexes):
+    # learning / importing / forgetting one spelling must not replace or remove another
+    def go_case(o):
+        it, m, sig = build(o, "DANGEROUS", "SAFE", "SAFE", "SAFE")
+        m.fields["signatures"] = []
+        m.fields[LEARNED].clear()
+        crit, susp = it.enum_member(TL, "CRITICAL"), it.enum_member(TL, levels[1])
+        it.call_fi(p.find_method(mem, "learn_threat"), [m, "\\d+q", crit, "digits"], {})
+        it.call_fi(p.find_method(mem, "learn_threat"), [m, "\\D+Q", susp, "non-digits"], {})
+        other = it.instantiate(tsig, ["\\D+q", susp, "imported twin"], {})
+        it.call_fi(p.find_method(mem, "import_antibodies"), [m, [other]], {})
+        it.call_fi(p.find_method(mem, "forget_threat"), [m, "\\d+Q"], {})       # a spelling that was never learned
+        it.decisions.clear()
+        it.call_fi(filt, [m, sig], {})
+        return {d[2] for d in it.decisions}
+    try:
+        seen_c = set().union(*[r for _, r in explore(go_case, max_paths=200)])
+    except Imprecise as e:
+        raise AnchorError(f"Membrane learn/import/forget history could not be interpreted: {e}")
+    key = "Membrane ▸ signatures differing only in letter case are distinct (learn, import, forget)"
+    missing = [pt for pt in ("\\d+q", "\\D+Q", "\\D+q") if f"match({pt})" not in seen_c]
+    if missing:
+        led.fail("C10-R1", key, where(filt, filt.node), f"after learning `\\d+q`, `\\D+Q`, importing `\\D+q` and forgetting the never-learned `\\d+Q`, the signature(s) {missing} are no longer consulted: an active signature was overwritten or removed by a different one",
+                 witness="learn_threat(r'\\d+q', CRITICAL) then learn_threat(r'\\D+Q', SUSPICIOUS): '123q' is admitted")
+    else:
+        led.ok("C10-R1", key, where(filt, filt.node), "all three spellings are still scanned after the history")
+
     # a store changed through the API *after* an input was admitted must be consulted the next time the same input arrives
     for api in ("add_signature", "learn_threat", "import_antibodies", "set_threshold"):
         def go_hist(o):
